@@ -521,13 +521,13 @@ func (cpu *CPU) cmdRead() byte {
 		m_Absolute_Long_X,
 		m_Absolute_X,
 		m_Absolute_Y,
+		m_DP_Indirect_Y,
 		m_Stack_Relative_Indirect_Y:
 		return cpu.Bus.EaRead(cpu.StepInfo.EA)
 
 	case m_Absolute,
 		m_DP_X_Indirect,
-		m_DP_Indirect,
-		m_DP_Indirect_Y:
+		m_DP_Indirect:
 		return cpu.nRead(cpu.RDBR, cpu.StepInfo.Addr)
 
 	default:
@@ -558,6 +558,7 @@ func (cpu *CPU) cmdRead16() uint16 {
 		m_Absolute_X,
 		m_Absolute_Y,
 		m_Absolute_X_Indirect,
+		m_DP_Indirect_Y,
 		m_Stack_Relative_Indirect_Y:
 		ll := cpu.Bus.EaRead(cpu.StepInfo.EA) // todo - zastapic to jakos?
 		hh := cpu.Bus.EaRead((cpu.StepInfo.EA + 1) & 0x00ffffff) // wrap on 24bits
@@ -565,8 +566,7 @@ func (cpu *CPU) cmdRead16() uint16 {
 
 	case m_Absolute,
 		m_DP_X_Indirect,
-		m_DP_Indirect,
-		m_DP_Indirect_Y:
+		m_DP_Indirect:
 		return cpu.nRead16_cross(cpu.RDBR, cpu.StepInfo.Addr)
 
 	default:
@@ -589,13 +589,13 @@ func (cpu *CPU) cmdWrite(value byte) {
 		m_Absolute_Long_X,
 		m_Absolute_X,
 		m_Absolute_Y,
+		m_DP_Indirect_Y,
 		m_Stack_Relative_Indirect_Y:
 		cpu.Bus.EaWrite(cpu.StepInfo.EA, value)
 
 	case m_Absolute,
 		m_DP_X_Indirect,
-		m_DP_Indirect,
-		m_DP_Indirect_Y:
+		m_DP_Indirect:
 		cpu.nWrite(cpu.RDBR, cpu.StepInfo.Addr, value)
 
 	default:
@@ -617,6 +617,7 @@ func (cpu *CPU) cmdWrite16(value uint16) {
 		m_Absolute_Long_X,
 		m_Absolute_X,
 		m_Absolute_Y,
+		m_DP_Indirect_Y,
 		m_Stack_Relative_Indirect_Y:
 		ll := byte(value)
 		hh := byte(value >> 8)
@@ -625,8 +626,7 @@ func (cpu *CPU) cmdWrite16(value uint16) {
 
 	case m_Absolute,
 		m_DP_X_Indirect,
-		m_DP_Indirect,
-		m_DP_Indirect_Y:
+		m_DP_Indirect:
 		cpu.nWrite16_cross(cpu.RDBR, cpu.StepInfo.Addr, value)
 
 	default:
@@ -961,9 +961,13 @@ func (cpu *CPU) Step() (int, bool) {
 		if cpu.X == 1 {
 			addr = cpu.nRead16_wrap(0, uint16(arg8)+cpu.RD) + uint16(cpu.RYl)
 			pageCrossed = pagesDiffer(addr-uint16(cpu.RYl), addr)
+			// the index is added to the 24-bit address, so the access can cross into the next bank:
+			ea = (uint32(cpu.RDBR)<<16 | uint32(addr-uint16(cpu.RYl))) + uint32(cpu.RYl)
 		} else {
 			addr = cpu.nRead16_wrap(0, uint16(arg8)+cpu.RD) + cpu.RY
 			pageCrossed = pagesDiffer(addr-cpu.RY, addr)
+			// the index is added to the 24-bit address, so the access can cross into the next bank:
+			ea = (uint32(cpu.RDBR)<<16 | uint32(addr-cpu.RY)) + uint32(cpu.RY)
 		}
 
 	// [$12], Y       - p. 305 or 5.13
